@@ -3,6 +3,7 @@ package checks
 import (
 	"encoding/json"
 	"fmt"
+	"strings"
 
 	"verif/mc/enum"
 	"verif/mc/evid"
@@ -24,7 +25,7 @@ func init() {
 				Rule: fmt.Sprintf("all histories of depth <= %d (depth %d over a reduced alphabet in the thorough tier) on one connection of the full reference server (real loader, Start handler, ASCII/PAP handlers, bcrypt, stringy, local accounter) over an alphabet of ~85 abstract packets: "+
 					"ASCII START (user empty/known/unknown), PAP START (good/bad/empty password), unrouted STARTs, CONTINUE (user, password, junk, empty, abort), command and session authorization (permitted/denied/other user), accounting (start/stop/watchdog/invalid flags), "+
 					"undecodable bodies per type, trailing garbage, each on session A or B; sequence choices {expected, same, lower, even, jump, 255} on three kinds; rejected forms (invalid version, type, sequence 0, length 65537, wrong key). "+
-					"Plus all histories of depth <= 3 over 12 packets mixing ordinary requests with user names, messages and arguments outside US-ASCII (well-formed UTF-8 and not) on every AAA path. Plus 5 accepted requests x 8 kinds of bytes behind them in the same segment (a valid request, four header forms that end the connection, a header whose body never comes, half a header, a wrong-key packet): the first packet written is the reply to the accepted request. Configurations: keychain-backed user with a working and with a failing keychain; and all histories of depth <= 2 over ~110 packets aimed at the odd user/authenticator/accounter/policy shapes of the C14 configurations under three keychain behaviours. Oracle per request, from the connection-loop model: accepted => exactly one handler invocation and exactly one packet "+
+					"Plus all histories of depth <= 3 over 12 packets mixing ordinary requests with user names, messages and arguments outside US-ASCII (well-formed UTF-8 and not) on every AAA path, and over 9 packets carrying the longest user names, messages and arguments the layouts allow (255 octets; 65511, 65512 and 65530 octets in a CONTINUE). Plus 5 accepted requests x 8 kinds of bytes behind them in the same segment (a valid request, four header forms that end the connection, a header whose body never comes, half a header, a wrong-key packet): the first packet written is the reply to the accepted request; and the same requests from a client that stops reading before its reply is written, resumes and sends a second request: exactly the two whole replies. Configurations: keychain-backed user with a working and with a failing keychain; and all histories of depth <= 2 over ~110 packets aimed at the odd user/authenticator/accounter/policy shapes of the C14 configurations under three keychain behaviours. Oracle per request, from the connection-loop model: accepted => exactly one handler invocation and exactly one packet "+
 					"(none iff numbered 255) before the next read, connection stays open; rejected => no handler invocation, at most one packet, connection closed. states = distinct loop-model states, transitions = packets delivered", d, d),
 				Assumptions: []string{"accept/reject is decided by mc/ref/connmodel.go; the only handler-dependent input of the model is whether the invoked handler registered a continuation (observed through a wrapping Response)",
 					"for bodies in the indeterminate key-mismatch class either complete behaviour is accepted (C19 owns that boundary)"}}
@@ -225,6 +226,11 @@ func c07Run(c *Ctx) {
 			{Kind: "author", User: "own\xff", Args: []string{"service=shell", "cmd=show"}}, {Kind: "acct", User: "\xfe", Flags: 4},
 			{Kind: "author", User: "own", Args: []string{"service=shell", "cmd=sh\xc3\xb6w"}}}
 		rExplore(c, eOK, small, 3, false, "s1", step, nil)
+		// the longest user names and messages the layouts can carry (what a reply echoes back must still fit the reply)
+		long := []rPkt{{Kind: "ascii", User: ""}, {Kind: "ascii", User: strings.Repeat("n", 255)}, {Kind: "cont", Msg: strings.Repeat("u", 65511)}, {Kind: "cont", Msg: strings.Repeat("u", 65512)},
+			{Kind: "cont", Msg: strings.Repeat("u", 65530)}, {Kind: "cont", Msg: "x"}, {Kind: "pap", User: strings.Repeat("n", 255), Pw: strings.Repeat("p", 255)},
+			{Kind: "author", User: strings.Repeat("n", 255), Args: []string{"service=shell", "cmd=" + strings.Repeat("c", 251)}}, {Kind: "acct", User: strings.Repeat("n", 255), Flags: 2}}
+		rExplore(c, eOK, long, 3, false, "s1", step, nil)
 	}
 	// coalesced delivery: an accepted request with the client's next bytes behind it in one segment
 	{
@@ -318,7 +324,7 @@ func c07CoFirsts(e *rEnv) []rPkt {
 		{Kind: "ascii", User: ""}, {Kind: "author", User: "nobody", Args: []string{"service=shell", "cmd=show"}}}
 }
 
-var c07Behinds = []string{"valid", "bad-version", "even-seq", "seq-0", "oversize", "header-only", "partial-header", "wrong-key"}
+var c07Behinds = []string{"slow-reader", "valid", "bad-version", "even-seq", "seq-0", "oversize", "header-only", "partial-header", "wrong-key"}
 
 // c07Coalesced: an accepted request is answered with exactly one reply before the server turns to whatever follows it -
 // a valid request, one that ends the connection, or one that never completes.
@@ -351,6 +357,33 @@ func c07Coalesced(c *Ctx, rw *rworld, e *rEnv, cs c07Co) {
 	case "wrong-key":
 		key = []byte("some other key")
 		nb = []byte{0xff, 0xff, 0xff, 0xff, 0xff, 0xff, 0xff, 0xff, 0xff}
+	}
+	if cs.Behind == "slow-reader" {
+		// the client stops reading before the reply to A is written and resumes later, then sends a second request
+		rc.C.StallWrites()
+		rc.C.Feed(wire)
+		if _, ok := rc.C.WaitSettled(srvx.HangTimeout); !ok {
+			c.Abort("hang", "the server neither wrote nor went idle for a client that stopped reading", cs)
+		}
+		rc.C.ReleaseWrites()
+		if _, ok := rc.C.WaitIdleTimeout(srvx.HangTimeout); !ok {
+			c.Abort("hang", "the server did not go idle after the client resumed reading", cs)
+		}
+		if !rc.C.Closed() {
+			if _, err := rw.W.Deliver(rc.C, ref.Packet(hb, key, nb)); err != nil {
+				c.Abort("hang", err.Error(), cs)
+			}
+		}
+		c.R.Trans(2)
+		pk, rest := srvx.ParseStream(rc.C.Take())
+		if len(rest) != 0 || len(pk) != 2 || pk[0].H.Session != ha.Session || pk[0].H.Seq != 2 || pk[1].H.Session != hb.Session || pk[1].H.Seq != 2 {
+			c.R.ViolateMin("slow-reader/one-reply-each", fmt.Sprintf("request %s from a client that stopped reading for a while, then a second request: %d whole packets and %d stray bytes on the wire (%d writes ended in a timeout after a partial write), want exactly the two replies",
+				a.String(), len(pk), len(rest), rc.C.TornWrites()), cs, 1)
+			return
+		}
+		c.R.Distinct(evid.Hash("co", cs))
+		c.R.Trace()
+		return
 	}
 	next := ref.Packet(hb, key, nb)
 	switch cs.Behind {
